@@ -1010,6 +1010,8 @@ def pad(tensor, padding, value=0.0):
 
     if tensor.is_ttm:
         cores = [c.clone() for c in tensor.cores]
+        # modes without a padding entry are padded by (0, 0): every core needs the two extra rank slots of the corner blocks
+        padding = [(0, 0)]*(len(tensor.N)-len(padding)) + list(padding)
         for pad, k in zip(reversed(padding), reversed(range(len(tensor.N)))):
             cores[k] = tnf.pad(cores[k], (1 if k < len(tensor.N)-1 else 0, 1 if k < len(tensor.N) -
                                1 else 0, pad[0], pad[1], pad[0], pad[1], 1 if k > 0 else 0, 1 if k > 0 else 0), value=0)
